@@ -311,7 +311,7 @@ func (e *Engine) Explore(h *HarnessRun) {
 	}
 
 	if !h.syncAsserts {
-		h.pool = newAsyncPool(12, envOr("SYMGO_SOLVER", "z3-new"), h.timeoutMS)
+		h.pool = newAsyncPool(12, envOr("SYMGO_SOLVER", "z3-new"), h.timeoutMS, h.Mode == ModeReal)
 	}
 	var mu sync.Mutex
 	cond := sync.NewCond(&mu)
@@ -324,6 +324,7 @@ func (e *Engine) Explore(h *HarnessRun) {
 
 	worker := func() {
 		solver := NewSolver(envOr("SYMGO_SOLVER", "z3-new"), h.timeoutMS)
+		solver.nra = h.Mode == ModeReal
 		defer solver.Close()
 		m := &Machine{eng: e, tt: NewTermTable(), solver: solver, mode: h.Mode, h: h}
 		m.funcsSeen = map[*ssa.Function]bool{}
